@@ -102,6 +102,9 @@ class MembershipProtocol(Entity):
     ) -> None:
         super().__init__(name)
         self._network = network
+        if probe_interval <= 0:
+            # a periodic timer with a zero period re-arms itself at the current instant forever
+            raise ValueError(f"probe_interval must be > 0, got {probe_interval}")
         self._probe_interval = probe_interval
         self._suspicion_timeout = suspicion_timeout
         self._indirect_probe_count = indirect_probe_count
